@@ -4,7 +4,7 @@ import logging
 
 THEOREMS = ['Pylx.C19_results', 'Pylx.C19_order', 'Pylx.C19_once', 'Pylx.C19_once_nodup',
             'Pylx.C19_children_first', 'Pylx.C19_returns_own_callback', 'Pylx.C19_none_containers']
-RULE = ('VISIT: a recording LatexNodesVisitor subclass is started on (a) strict parses of generated documents '
+RULE = ('VISIT (followed by a second visitor whose callbacks return falsy values 0, \'\', [], False, (), {}: a parent is handed exactly what its children returned): a recording LatexNodesVisitor subclass is started on (a) strict parses of generated documents '
         '(default context and a context with macros/environments/specials taking every standard argument kind, '
         'node-list valued arguments, math-mode arguments), (b) tolerant parses of all short atom sequences and of random '
         'token soups, (c) the same trees with nodelist=None / nodeargd=None / None argument slots / node-list arguments '
@@ -273,6 +273,49 @@ def _oracle(root, vis, ret):
         return ('wrong-results', 'start() did not return the value of the root callback')
     return None
 
+def _falsy_pass(root):
+    """a second visitor whose callbacks return falsy values (0, '', [], False, (), {}): a parent must be handed exactly
+    what its children returned — a falsy result is not the None placeholder of an absent argument"""
+    from pylatexenc.latexnodes import nodes as N
+    FALSY = [lambda: 0, lambda: '', lambda: [], lambda: False, lambda: (), lambda: {}, lambda: 0.0]
+    class FalsyVisitor(N.LatexNodesVisitor):
+        def __init__(self):
+            self.ret = {}      # id(object) -> list of returned values
+            self.calls = []
+        def visit(self, node, **kw):
+            v = FALSY[(len(self.calls) + (getattr(node, 'pos', 0) or 0)) % len(FALSY)]()
+            self.ret.setdefault(id(node), []).append(v)
+            self.calls.append((node, kw))
+            return v
+    vis = FalsyVisitor()
+    try:
+        vis.start(root)
+    except RecursionError:
+        raise
+    except Exception as e:
+        return ('visitor-exception', 'visitor with falsy results: %s: %s' % (type(e).__name__, e))
+    same = lambda x, y: x is y or (type(x) is type(y) and x == y and not isinstance(x, (list, dict)))
+    for obj, kw in vis.calls:
+        for (n, how, v) in _kids(obj):
+            val = kw.get('visited_results_' + n)
+            if v is None:
+                continue
+            if how == 'one':
+                if not any(same(val, y) for y in vis.ret.get(id(v), [])):
+                    return ('wrong-results', '%s@%s: %s=%r is not the (falsy) value its child returned (%r)'
+                            % (type(obj).__name__, getattr(obj, 'pos', None), n, val, vis.ret.get(id(v))))
+            else:
+                if not isinstance(val, list) or len(val) != len(v):
+                    return ('wrong-results', '%s@%s: %s has the wrong length' % (type(obj).__name__, getattr(obj, 'pos', None), n))
+                for i, (c, x) in enumerate(zip(v, val)):
+                    if c is None:
+                        if x is not None:
+                            return ('wrong-results', '%s@%s: %s[%d] should be None' % (type(obj).__name__, getattr(obj, 'pos', None), n, i))
+                    elif not any(same(x, y) for y in vis.ret.get(id(c), [])):
+                        return ('wrong-results', '%s@%s: %s[%d]=%r is not the (falsy) value child %d returned (%r)'
+                                % (type(obj).__name__, getattr(obj, 'pos', None), n, i, x, i, vis.ret.get(id(c))))
+    return None
+
 # ----------------------------------------------------------------------------- building the tree of a case
 
 def _build(c):
@@ -392,6 +435,8 @@ def run_impl(c):
                 'fail': {'kind': 'visitor-exception', 'detail': '%s: %s at %s:%d' % (type(e).__name__, e, where.filename.split('/')[-1], where.lineno)},
                 'sig': 'visitor-exception'}
     bad = _oracle(root, vis, ret)
+    if not bad:
+        bad = _falsy_pass(root)
     fail = {'kind': bad[0], 'detail': bad[1]} if bad else None
     unrep = _representable(root)
     sig = _sig(c, root, applied)
